@@ -18,7 +18,9 @@ def corpus():
         "scn 4 _/N|_|_|_ -",                       # fails before registering any cleanup, then passes thrice
         "scn 6 _/F|_|Pr|_|Pn|_ -",
         "scn 5 _/r1.Q|L1|r1.Pv|L2|E c1=L9",
-        "scn 4 _/Pe|Ps|A|_ -",
+        "scn 4 _/Pe|Ps|A|_ -",                     # D18: the first Pe of a program panics with an error whose Is matches everything
+        "scn 4 _/Pe|Pe|Pe|Pe -",                   # D19: the third one with a typed nil pointer error
+        "scn 3 _/Pe.L1|L2.Pe|Pe c1=L9",
         "scn 4 _/WN.L1|WPr.L2|WF.L3|_ -",
         "pool.handles 2 1",          # two pools of one manager (file stages): a failure must stay on its own handle
         "pool.handles 3 2",
@@ -31,6 +33,10 @@ def corpus():
         "run prop=C07 mode=users conc=2 dur=300 body=1 maxit=20 failevery=3 failkind=panicunhash",
         "run prop=C07 mode=users conc=2 dur=300 body=1 maxit=20 failevery=2 failkind=errunhash",
         "run prop=C07 mode=users conc=2 dur=300 body=1 maxit=20 failevery=2 failkind=panicint",
+        "run prop=C07 mode=users conc=2 dur=300 body=1 maxit=20 failevery=2 failkind=panicis",
+        "run prop=C07 mode=users conc=2 dur=300 body=1 maxit=20 failevery=3 failkind=panicnilptr",
+        "run prop=C07 mode=users conc=2 dur=300 body=1 maxit=20 failevery=2 failkind=errnil",
+        "run prop=C07 mode=users conc=2 dur=300 body=1 maxit=20 failevery=2 failkind=fatalnil",
         "cli mode=users dur=%s conc=2 bodyms=5 failevery=2 failkind=panicerr logfile=bad" % hx("200ms"),
         "cli mode=users dur=%s conc=2 bodyms=5 failevery=3 failkind=errorf logfile=bad" % hx("200ms"),
         "cli mode=users dur=%s conc=1 bodyms=2 maxit=8 failevery=2 failkind=nilmap combine=1 expectlimit=1" % hx("300ms"),
@@ -56,7 +62,7 @@ def generate(rng, tier):
                     b += ".L%d" % rng.randint(0, 9)
             bodies.append(b)
         out.append("scn %d _/%s %s" % (rng.choice([nb, nb, 2 * nb, nb + 1]), "|".join(bodies), _scn.cleanups(rng, ncl, 0.3)))
-    kinds = ["failnow", "panicerr", "panicstr", "nilmap", "errorf", "timefail", "timeerr", "errunhash", "panicunhash", "paniclong", "panicint"]
+    kinds = ["failnow", "panicerr", "panicstr", "nilmap", "errorf", "timefail", "timeerr", "errunhash", "panicunhash", "paniclong", "panicint", "panicis", "panicnilptr", "errnil", "fatalnil"]
     for _ in range({"quick": 6, "thorough": 60, "search": 16}[tier]):
         if rng.random() < 0.5:
             out.append("run prop=C07 mode=%s dur=300 conc=%d body=%d maxit=%d failevery=%d failkind=%s%s" % (
